@@ -137,6 +137,33 @@ func scriptRun(w *World, coll bool) {
 		}
 	}
 
+	var passers []context.CancelFunc
+	if t.Flag(1, 3) {
+		// other subscribers come and go while the ones under observation stay: each of those still gets exactly its script
+		np := 1 + t.Choose(2)
+		for i := 0; i < np; i++ {
+			ctx, cancel := context.WithCancel(context.Background())
+			passers = append(passers, cancel)
+			tmp := &subscriber{name: fmt.Sprintf("passer-by%d", i), cfg: subCfg{Backpressure: true, UpdatesOnly: t.Flag(1, 2)}, ctx: ctx, cancel: cancel}
+			stay, wait := t.Choose(3), t.Choose(4)
+			w.Go(tmp.name, true, func(task *Task) {
+				for k := 0; k < wait; k++ {
+					task.Yield("later")
+				}
+				tmp.open(r)
+				for k := 0; k < stay; k++ {
+					task.Yield("recv")
+					if !tmp.recv(w) {
+						return
+					}
+				}
+				task.Yield("leave")
+				cancel()
+				for tmp.recv(w) {
+				}
+			})
+		}
+	}
 	w.Go("w", false, func(task *Task) {
 		for i := 0; i < nops; i++ {
 			openSubs(task, i)
@@ -275,6 +302,9 @@ func scriptRun(w *World, coll bool) {
 	}
 	for _, s := range subs {
 		s.cancel()
+	}
+	for _, c := range passers {
+		c()
 	}
 	w.Run()
 }
